@@ -464,7 +464,7 @@ def gen_expect(seed):
         if rng.random() < 0.5:
             ops.append(['y', rng.randint(1, 6)])
         ops.append(['expect', rng.choice(names), rng.choice(['E', 'E', 'F']), rng.choice(['any', 'odd', 'even', 'big', 'boom', 'none']),
-                    rng.choice(['none', 'none', 'odd', 'big']), rng.choice([None, 2, 5, 20, 20]), rng.random() < 0.3])
+                    rng.choice(['none', 'none', 'odd', 'big']), rng.choice([None, 0, 2, 5, 20, 20]), rng.random() < 0.3])
         if rng.random() < 0.15:      # the call is cancelled before it has taken a single step (task cancelled at once / wait_for(..., 0))
             ops[-1].append(rng.choice(['task0', 'wf0']))
         drivers.append(ops)
@@ -700,6 +700,13 @@ def sys_timeout_stray():
             handlers.append(typed(ub, 'U', 'SU2', hid='hu2'))
         d = [['d', 'b1', 'Q'], ['d', 'b1', 'P'], ['a', 0], ['a', 1], ['idle', 'b1', 2000], ['idle', 'b2', 2000]]
         out.append(scn([bus('b1'), bus('b2', parallel=par)], handlers, scripts, [d], events={'P': {'timeout': tmo}}, horizon=8000, tag='timeout_stray'))
+        if not deep:
+            # a later, unrelated handler awaits the stray event U itself (event 3 in creation order: Q, P, U, C, Z): it must get it back complete
+            x = json.loads(json.dumps(out[-1]))
+            x['scripts']['SZ'] = {'Z': [['ax', 3], ['y', 1]]}
+            x['handlers'].append(typed('b1', 'Z', 'SZ', hid='hz'))
+            x['drivers'][0] = [['d', 'b1', 'Q'], ['d', 'b1', 'P'], ['s', 30], ['d', 'b1', 'Z'], ['a', 2], ['a', 0], ['a', 1], ['idle', 'b1', 2000], ['idle', 'b2', 2000]]
+            out.append(x)
     return out
 
 
@@ -924,6 +931,67 @@ def sys_retry_handler():
     return out
 
 
+def sys_redispatch_evict():
+    """C01 / C08 after eviction: a completed event is pushed out of a small history by later traffic and the same object is then dispatched
+    to the same bus again: no handler runs a second time, its results stay what they were"""
+    out = []
+    for mh, nfill, nh, awaited, order in itertools.product([1, 3, 5], [2, 6, 12], [1, 2], [True, False], ['driver', 'handler']):
+        scripts = {'SR': {'R': [['ret', 'i1']]}, 'SR2': {'R': [['y', 1], ['ret', 'i2']]}, 'SF': {'F': [], 'Z': [['rd', 'b1']] if order == 'handler' else []}}
+        handlers = [typed('b1', 'R', 'SR', hid='hr')] + ([typed('b1', 'R', 'SR2', hid='hr2')] if nh == 2 else []) + [typed('b1', 'F', 'SF', hid='hf')]
+        d = [['d', 'b1', 'R'], ['a', 0]]
+        for i in range(nfill):
+            d += [['d', 'b1', 'F']] + ([['a', i + 1]] if awaited else [])
+        d += [['idle', 'b1', 2000], ['rd', 'b1', 0], ['idle', 'b1', 2000], ['acc', 0, 'event_results_list', {'raise_if_any': False, 'raise_if_none': False}]]
+        out.append(scn([bus('b1', maxhist=mh)], handlers, scripts, [d], horizon=8000, tag='redispatch_evict'))
+    return out
+
+
+def sys_hist_nohandler():
+    """C13 eviction order with events nobody handles on that bus (they complete with no results at all): still `completed` for eviction, so a
+    running event is not evicted while they remain"""
+    out = []
+    for mh, nnone, nk, slow in itertools.product([2, 3, 6], [1, 3, 5], [1, 3], [5, 20]):
+        scripts = {'SR': {'R': [['s', slow]], 'K': []}}
+        handlers = [typed('b1', 'R', 'SR', hid='hr'), typed('b1', 'K', 'SR', hid='hk')]
+        d = [['d', 'b1', 'N']] * nnone + [['idle', 'b1', 2000], ['d', 'b1', 'R'], ['s', 1]] + [['d', 'b1', 'K']] * nk + [['d', 'b1', 'N']] * 2 + [['a', nnone], ['idle', 'b1', 2000]]
+        out.append(scn([bus('b1', maxhist=mh)], handlers, scripts, [d], horizon=8000, tag='hist_nohandler'))
+    return out
+
+
+def gen_fwd_idle(seed):
+    """forwarding graphs with a second driver that calls wait_until_idle() on some bus at several moments (C15 soundness while forwarded
+    events are in flight between buses and run loops wait for the lock)"""
+    rng = random.Random(seed * 17 + 1)
+    s = gen_fwd(seed * 5 + 2)
+    names = [b['name'] for b in s['buses']]
+    ops = []
+    for _ in range(rng.randint(2, 4)):
+        ops.append(rng.choice([['y', rng.randint(1, 6)], ['s', rng.choice([1, 2, 3])]]))
+        ops.append(['idle', rng.choice(names), 2000])
+    s['drivers'].append(ops)
+    for dops in s['drivers'][:1]:
+        for op in dops:
+            if op[0] == 'idle' and len(op) == 2:
+                op.append(2000)
+    s['tag'] = 'fwd_idle'
+    return s
+
+
+def sys_idle_forward_lock():
+    """C15 soundness for an event that arrives by forwarding while wait_until_idle() is pending and whose run loop then has to queue for the
+    global lock behind another bus: the call must not return before the bus has processed it"""
+    out = []
+    for wsleep, hsleep, gap, order, typed_fwd in itertools.product([200, 120], [400, 150], [20, 1], ['fwd', 'rev'], [True, False]):
+        scripts = {'SW': {'W': [['s', wsleep]], 'J': [['s', 10]]}, 'SO': {'H': [['s', hsleep]], 'W': [], 'J': []}, 'SF': {'W': [], 'H': []}}
+        handlers = [fwd('b1', 'b2', 'J') if typed_fwd else fwd('b1', 'b2'), typed('b2', 'W', 'SW', hid='hw'), typed('b2', 'J', 'SW', hid='hj'), typed('b3', 'H', 'SO', hid='hh')]
+        d = [['idle', 'b1', 500], ['idle', 'b2', 500], ['idle', 'b3', 500], ['d', 'b2', 'W'], ['s', 50], ['d', 'b1', 'J'], ['d', 'b3', 'H'], ['s', gap],
+             ['idle', 'b2', 3000], ['idle', 'b1', 3000], ['idle', 'b3', 3000]]
+        x = scn([bus('b1'), bus('b2'), bus('b3')], handlers, scripts, [d], horizon=8000, tag='idle_forward_lock')
+        x['busorder'] = order
+        out.append(x)
+    return out
+
+
 def gen_wal(seed):
     rng = random.Random(seed)
     nb = rng.choice([1, 2, 2, 3])
@@ -1095,6 +1163,10 @@ def gen_timeout_par(seed):
 
 
 FAMILIES = {
+    'idle_forward_lock': ('sys', sys_idle_forward_lock),
+    'redispatch_evict': ('sys', sys_redispatch_evict),
+    'hist_nohandler': ('sys', sys_hist_nohandler),
+    'fwd_idle': ('rand', gen_fwd_idle),
     'retry_handler': ('sys', sys_retry_handler),
     'idle_in_handler': ('sys', sys_idle_in_handler),
     'fwd_timeout': ('rand', gen_fwd_timeout),
